@@ -7,6 +7,8 @@ Bad == {i \in DOMAIN Recs :
           LET r == Recs[i] IN
           ~ IF r.symmetry
             THEN r.tlc_orbits <= r.unique /\ r.unique <= r.tlc_distinct      \* >= one state per class, never more than unreduced
+                 \* a canonical representative (sorting) gives exactly one state per class, and one expansion per class
+                 /\ ("canonical" \in DOMAIN r /\ r.canonical => (r.unique = r.tlc_orbits /\ r.states = r.tlc_generated))
                  /\ r.found_commit /\ r.found_abort /\ ~r.found_inconsistent
             ELSE r.unique = r.tlc_distinct                                    \* exactly the reachable states
                  /\ r.states >= r.unique
